@@ -149,4 +149,107 @@ def respFields (status : Nat) (r : Resp) (serverTag : Option Bytes) : Option (Li
     peer announces SETTINGS_HEADER_TABLE_SIZE = v (never above the default 4096) -/
 def peerTableSize (v : Nat) : Nat := min v 4096
 
+/-! ### request direction: what h2_recv_headers() does with a complete header block
+
+  (after h2_recv_continuation() merged HEADERS + CONTINUATION and padding /
+  priority fields were stripped).  Only what matters for the HPACK state is
+  modelled: which blocks are decoded at all, served or discarded, and when the
+  connection dies.  The content checks of http_request_parse_header() are not
+  modelled (a request it refuses is still decoded to the end). -/
+
+/-- an active stream the connection still tracks (h2c->r[]) -/
+structure Stream where
+  id : Nat
+  isOpen : Bool        -- H2_STATE_OPEN (no END_STREAM yet), else HALF_CLOSED_REMOTE / CLOSED
+  errored : Bool       -- r->state == CON_STATE_ERROR after an RST_STREAM was sent
+deriving Repr, DecidableEq
+
+structure GConn where
+  dec : Dec := Dec.init
+  cid : Nat := 0                -- h2c->h2_cid
+  streams : List Stream := []   -- h2c->r[0..rused)
+  acked : Bool := false         -- our SETTINGS acknowledged (h2c->sent_settings == 0)
+  goaway : Int := 0             -- h2c->sent_goaway (-1 graceful, > 0 error code)
+  ndisc : Nat := 0              -- h2c->n_discarded_headers
+  nrefused : Nat := 0           -- h2c->n_refused_stream
+deriving Repr
+
+/-- what the harness can observe of one HEADERS(+CONTINUATION) sequence -/
+inductive Outcome where
+  | new (id : Nat)                       -- new stream, block served
+  | trailers (id : Nat)                  -- trailers of an active stream, decoded (and ignored)
+  | discarded (id : Nat) (rst : Option Nat)   -- decoded and discarded (RST_STREAM code sent, if any)
+  | deferred                             -- frame left in the read queue (refusal postponed)
+  | nothing                              -- connection error before any decoding
+deriving Repr, DecidableEq
+
+def maxStreams : Nat := 8
+
+def errGoaway (e : Err) : Int :=
+  match e with
+  | .badData => 9       -- H2_E_COMPRESSION_ERROR
+  | _ => 1              -- H2_E_PROTOCOL_ERROR
+
+/-- h2_send_goaway(): an error replaces a graceful GOAWAY, nothing replaces an error -/
+def setGoaway (c : GConn) (code : Int) : GConn :=
+  if c.goaway ≠ 0 ∧ (c.goaway > 0 ∨ code = -1) then c
+  else
+    -- an error GOAWAY resets every active stream (h2_send_goaway_rst_stream)
+    let ss := if code = -1 then c.streams else c.streams.map fun (s : Stream) => { s with isOpen := false, errored := true }
+    { c with goaway := code, streams := ss }
+
+/-- h2_discard_headers() -/
+def discardPath (cap : Nat) (c : GConn) (block : Bytes) : GConn :=
+  if c.goaway > 0 then c
+  else
+    let c := { c with ndisc := c.ndisc + 1 }
+    let c := if c.ndisc > 32 then setGoaway c 11 else c        -- H2_E_ENHANCE_YOUR_CALM
+    { c with dec := discardBlock cap c.dec block }
+
+def rstStream (c : GConn) (id : Nat) : GConn :=
+  { c with streams := c.streams.map fun (s : Stream) => if s.id = id then { s with isOpen := false, errored := true } else s }
+
+/-- h2_recv_headers() on a merged frame: stream id, END_STREAM flag, PRIORITY
+    stream dependency (if the flag is set), header block -/
+def recvHeaders (cap : Nat) (c : GConn) (id : Nat) (endStream : Bool) (dep : Option Nat)
+    (block : Bytes) (keep : Bool) : GConn × Outcome :=
+  if id % 2 = 0 then (setGoaway c 1, .nothing)
+  else if dep = some id ∧ id > c.cid then (setGoaway c 1, .nothing)
+  else if id ≤ c.cid then
+    -- trailers
+    match c.streams.find? (·.id = id) with
+    | none => (setGoaway c 1, .nothing)
+    | some s =>
+      if ¬ s.isOpen then
+        let c := rstStream c id
+        (discardPath cap c block, .discarded id (some 5))       -- H2_E_STREAM_CLOSED
+      else if ¬ endStream then
+        let c := rstStream c id
+        (discardPath cap c block, .discarded id (some 1))       -- H2_E_PROTOCOL_ERROR
+      else
+        let c := { c with streams := c.streams.map fun (x : Stream) => if x.id = id then { x with isOpen := false } else x }
+        let r := decodeBlock cap c.dec block
+        let c := { c with dec := r.dec }
+        match r.err with
+        | none => (c, .trailers id)
+        | some e => (setGoaway c (errGoaway e), .trailers id)
+  else if c.goaway ≠ 0 then (discardPath cap c block, .discarded id none)
+  else if c.streams.length = maxStreams then
+    -- h2_send_refused_stream()
+    if c.streams.any (·.errored) then (c, .deferred)
+    else if ¬ c.acked ∧ id > 200 then (setGoaway c 11, .nothing)
+    else if ¬ c.acked ∧ c.streams.any (fun s => ¬ s.isOpen) then (c, .deferred)
+    else
+      let c := { c with cid := id, nrefused := c.nrefused + 1 }
+      let c := if c.nrefused > 16 then setGoaway c (-1) else c
+      (discardPath cap c block, .discarded id (some 7))         -- H2_E_REFUSED_STREAM
+  else
+    let r := decodeBlock cap c.dec block
+    let c := { c with dec := r.dec }
+    match r.err with
+    | some e => (setGoaway { c with cid := id } (errGoaway e), .nothing)
+    | none =>
+      let c := { c with cid := id }
+      (if keep then { c with streams := c.streams ++ [⟨id, !endStream, false⟩] } else c, .new id)
+
 end LtVerif.H2Headers
